@@ -25,6 +25,14 @@ type Val struct {
 	L    []Sc
 	Loc  *Loc
 	Clos *Clos
+	// Alts: a function value that is one of several closures known at encode time, depending on the path taken
+	// (phi of closures): calls through it are encoded as a case split
+	Alts []ClosAlt
+}
+
+type ClosAlt struct {
+	Cond string
+	Clos *Clos
 }
 
 type Clos struct {
